@@ -44,7 +44,7 @@ def comment_lines(lay, tag, ind):
     raise ValueError(form)
 
 
-RULE = {"pattern": 'line-pattern="^[a-z ]+$"', "unique": 'keep-unique="id: (?P<value>\\S+)"', "sorted": 'keep-sorted="desc"',
+RULE = {"sortedre": 'keep-sorted="desc" keep-sorted-pattern="id: (?P<value>\\S+)"', "pattern": 'line-pattern="^[a-z ]+$"', "unique": 'keep-unique="id: (?P<value>\\S+)"', "sorted": 'keep-sorted="desc"',
         "count": 'line-count="<0"', "affects": 'affects=":nothere"'}
 
 
@@ -66,11 +66,11 @@ def render(case, kind, mb, ci):
     lines = pre + cl
     tag_idx = len(pre) + lay["tagl"]
     last = len(lines) - 1
-    keyed = kind in ("pattern", "unique", "sorted")
+    keyed = kind in ("pattern", "unique", "sorted", "sortedre")
     # text of content lines 0..4 (line 0 = rest of the comment's last line)
     content = {k: None for k in range(0, 5)}
     if keyed:
-        if kind == "unique":
+        if kind in ("unique", "sortedre"):
             if form == "mdparen":
                 raise Skip()       # parentheses of the regex would end the ( ) title of the Markdown comment
             if koff < 4 or j == 0 or (j == 1 and not lay["inline"]):
@@ -81,8 +81,9 @@ def render(case, kind, mb, ci):
             content[j] = ("é" * fill if mb else " " * fill) + "id: " + key
             for k in range(1, 5):
                 if k != j:
-                    content[k] = "id: u%d" % k
-            content[j - 1] = (" " if j - 1 == 0 else "") + "id: " + key     # the earlier occurrence
+                    content[k] = ("id: u%d" % k) if kind == "unique" else ("id: A" if k < j else "id: 0%d" % k)
+            # the earlier occurrence (unique) / the smaller predecessor (sorted desc)
+            content[j - 1] = (" " if j - 1 == 0 else "") + "id: " + (key if kind == "unique" else "A")
         else:
             if mb:
                 raise Skip()       # the key of these validators is the whole trimmed line
@@ -145,8 +146,8 @@ def run(chk):
         batch, meta = [], {}
         ci = 0
         for c in res.cases:
-            for kind in ("pattern", "unique", "sorted", "count", "lua", "ai", "affects"):
-                for mb in ((False, True) if kind in ("pattern", "unique") else (False,)):
+            for kind in ("pattern", "unique", "sorted", "sortedre", "count", "lua", "ai", "affects"):
+                for mb in ((False, True) if kind in ("pattern", "unique", "sortedre") else (False,)):
                     if kind in ("count", "lua", "ai", "affects") and (c["j"], c["koff"], c["klen"]) != (2, 2, 1) and \
                             not (c["lay"]["inline"] and (c["j"], c["klen"]) == (0, 1) and c["koff"] in (121, 13)):
                         continue   # tag-range validators do not depend on the key placement
@@ -168,7 +169,7 @@ def run(chk):
                     meta[cid] = (c, kind, mb, tk, tt)
                     ci += 1
         results = vlib.run_bwexec(batch, env={"BLOCKWATCH_AI_API_URL": fake.url, "BLOCKWATCH_AI_API_KEY": "k"})
-        code_of = {"pattern": "line-pattern", "unique": "keep-unique", "sorted": "keep-sorted", "count": "line-count",
+        code_of = {"sortedre": "keep-sorted", "pattern": "line-pattern", "unique": "keep-unique", "sorted": "keep-sorted", "count": "line-count",
                    "lua": "check-lua", "ai": "check-ai", "affects": "affects"}
         tally = {}
         for case in batch:
@@ -187,7 +188,7 @@ def run(chk):
                 continue
             rg = ds[0]["range"]
             got = (rg["start"]["line"], rg["start"]["character"], rg["end"]["line"], rg["end"]["character"])
-            if kind in ("pattern", "unique", "sorted"):
+            if kind in ("pattern", "unique", "sorted", "sortedre"):
                 want = (tk["line"], tk["c0"], tk["line"], tk["c1"])
             else:
                 want = (tt["l0"], tt["c0"], tt["l1"], tt["c1"])
@@ -204,7 +205,7 @@ def run(chk):
                 tally[k] = tally.get(k, 0) + 1
                 text = case["files"][name].split("\n")
                 chk.violation("%s/%s j=%d: diagnostic points at %s, the %s is at %s" % (
-                    c["lay"]["form"], kind, c["j"], got, "key" if kind in ("pattern", "unique", "sorted") else "start tag", want),
+                    c["lay"]["form"], kind, c["j"], got, "key" if kind in ("pattern", "unique", "sorted", "sortedre") else "start tag", want),
                     dict(detail, expected=want), explained_by=why)
         chk.notes["mismatches_by_layout"] = tally
         chk.sample({"abstract": meta["r0"][0], "file": batch[0]["files"], "expected_key_range": meta["r0"][3]})
